@@ -512,7 +512,10 @@ void run_history(vh::Ctx& c, vh::Rng& r, const std::string& prop, bool extended,
           Tiny() {} Tiny(unsigned nx, unsigned d, unsigned nr, unsigned ns) : squids::SQuIDS(nx, d, nr, ns, 0.0) {}
           Tiny(Tiny&&) = default; Tiny& operator=(Tiny&&) = default;
           SU_vector H0(double x, unsigned) const override { SU_vector h(nsun); for (unsigned l = 1; l < nsun; l++) h[nsun * l + l] = x * l; return h; }
-          SU_vector HI(unsigned, unsigned, double t) const override { SU_vector h(nsun); h[1] = 0.3 + 0.1 * t; return h; }
+          SU_vector HI(unsigned, unsigned, double t) const override { SU_vector h(nsun); h[1] = (0.3 + 0.1 * t) * boost; return h; }
+          // the in-step view is what a derived class is meant to read in its callbacks
+          void PreDerive(double) override { double a = 0; for (unsigned ix = 0; ix < nx; ix++) { for (unsigned ir = 0; ir < nrhos; ir++) a += estate[ix].rho[ir][0] + estate[ix].rho[ir][nsun * nsun - 1]; for (unsigned is = 0; is < nscalars; is++) a += estate[ix].scalar[is]; } probe = a; }
+          double boost = 1.0, probe = 0.0;
           SU_vector GammaRho(unsigned, unsigned, double) const override { SU_vector g(nsun); g[0] = 0.05; return g; }
           double GammaScalar(unsigned, unsigned, double) const override { return 0.1; }
           void fill(vh::Rng& r) { for (unsigned ix = 0; ix < nx; ix++) { for (unsigned ir = 0; ir < nrhos; ir++) for (unsigned k = 0; k < nsun * nsun; k++) state[ix].rho[ir][k] = r.normal(); for (unsigned is = 0; is < nscalars; is++) state[ix].scalar[is] = r.normal(); } }
@@ -522,7 +525,22 @@ void run_history(vh::Ctx& c, vh::Rng& r, const std::string& prop, bool extended,
         p->Set_xrange(1.0, 3.0, r.coin() ? "linear" : "log"); p->fill(r);
         p->Set_CoherentRhoTerms(true); p->Set_NonCoherentRhoTerms(r.coin()); p->Set_GammaScalarTerms(ns > 0);
         p->Set_rel_error(1e-6); p->Set_abs_error(1e-6); p->Set_h(1e-2);
+        static const gsl_odeiv2_step_type* const steppers[] = {gsl_odeiv2_step_rk2, gsl_odeiv2_step_rk4, gsl_odeiv2_step_rkf45, gsl_odeiv2_step_rkck, gsl_odeiv2_step_rk8pd, gsl_odeiv2_step_msadams};
+        int stp = r.pick(6); p->Set_GSL_step(steppers[stp]); c.count(vh::fmt("solver.stepper.%s", steppers[stp]->name));
         p->Evolve(0.05);
+        if (r.coin(0.4)) {
+          // an integration that GSL gives up on (step size forced above what the tolerance needs): Evolve ends in a library
+          // exception; the object is then used further - without numerical terms (callback only) and with them
+          p->boost = 400; p->Set_rel_error(1e-12); p->Set_abs_error(1e-12); p->Set_h(0.5); p->Set_h_min(0.4); p->Set_h_max(1.0);
+          bool threw = false;
+          try { p->Evolve(10.0); } catch (std::runtime_error&) { threw = true; }
+          c.count(threw ? "exceptions.solver.evolve_gave_up" : "solver.forced_failure_did_not_fail");
+          p->boost = 1; p->Set_rel_error(1e-6); p->Set_abs_error(1e-6); p->Set_h_min(1e-300); p->Set_h_max(1e300); p->Set_h(1e-2);
+          bool coh = true;
+          if (r.coin(0.7)) { p->Set_CoherentRhoTerms(false); bool nc = false; p->Set_NonCoherentRhoTerms(nc); p->Set_GammaScalarTerms(false); p->Evolve(0.01); coh = false; }
+          if (!coh) { p->Set_CoherentRhoTerms(true); p->Set_GammaScalarTerms(ns > 0); }
+          p->fill(r);   // the interrupted integration may have left anything finite or not in the state
+        }
         if (r.coin()) { std::unique_ptr<Tiny> q(new Tiny(std::move(*p))); p = std::move(q); }
         if (r.coin()) { std::unique_ptr<Tiny> q(new Tiny(2, 3, 1, 0)); q->Set_xrange(0.0, 1.0, "linear"); q->fill(r); q->Set_CoherentRhoTerms(true); q->Evolve(0.01); *q = std::move(*p); p = std::move(q); }
         p->Evolve(0.02);
